@@ -125,7 +125,7 @@ pub fn run(ctx: &Ctx) -> i32 {
     });
     // corpus files as additional loadable sprites
     let corpus = crate::corpus::list(ctx);
-    let cs = run_cases(ctx, corpus.len() as u64, |i| {
+    let cs = run_stage(ctx, "corpus", corpus.len() as u64, |i| {
         let (name, bytes) = &corpus[i as usize];
         let mut res = CaseResult::ok(crate::rng::hash_bytes(bytes), 0, "corpus");
         if let Ok(ase) = load(bytes) {
